@@ -19,6 +19,9 @@ SPEC = Spec(
         Harness(name="proc-logs", module="processor/batchprocessor", pkg="processor/batchprocessor", go="go1.26",
                 files=dict(_FILES, **{"zz_verif_c17_proc_test.go": "c17/proc_test.go"}),
                 test="TestVerifC17ProcLogs", driver="drv_c17", n={"quick": 600, "thorough": 40000}, timeout_s=1500),
+        Harness(name="proc-traces", module="processor/batchprocessor", pkg="processor/batchprocessor", go="go1.26",
+                files=dict(_FILES, **{"zz_verif_c17_proc_test.go": "c17/proc_test.go"}),
+                test="TestVerifC17ProcTraces", driver="drv_c17", n={"quick": 400, "thorough": 30000}, timeout_s=1500),
         Harness(name="proc-metrics", module="processor/batchprocessor", pkg="processor/batchprocessor", go="go1.26",
                 files=dict(_FILES, **{"zz_verif_c17_proc_test.go": "c17/proc_test.go"}),
                 test="TestVerifC17ProcMetrics", driver="drv_c17", n={"quick": 600, "thorough": 40000}, timeout_s=1500),
